@@ -277,3 +277,268 @@ Proof.
         -- injection Hp as <-. apply require_complete_fail in Hrc. congruence.
       * injection Hp as <-. discriminate Hf.
 Qed.
+
+(* ---- ix_wf is an invariant of every machine built by NewMachine ------------------------------------ *)
+
+Definition rstate (r : rstep) : hstate := match r with RStop s | RGo s _ _ => s end.
+Definition wstate (r : wstep) : hstate := match r with WStop s | WGo s _ => s end.
+Definition is_dh (t : token) : bool := match t with TE | TS => false | _ => true end.
+
+(* fields no token touches, and hasK under tokens that mix no key *)
+Definition frame (keepK : bool) (s st : hstate) : Prop :=
+  hs_pat s = hs_pat st /\ hs_msgIdx s = hs_msgIdx st /\ hs_shouldWrite s = hs_shouldWrite st /\
+  (keepK = true -> hs_hasK s = hs_hasK st).
+
+Lemma frame_refl k st : frame k st st.
+Proof. repeat split. Qed.
+Lemma frame_trans k a b c : frame k a b -> frame k b c -> frame k a c.
+Proof. unfold frame. intros (A1 & A2 & A3 & A4) (B1 & B2 & B3 & B4). repeat split; try congruence. intros K. rewrite A4, B4; auto. Qed.
+
+Lemma frame_weaken k k' a b : (k' = true -> k = true) -> frame k a b -> frame k' a b.
+Proof. intros Hk (A & B & C & D). repeat split; try assumption. intros K. auto. Qed.
+
+Lemma rd_token_frame ck0 h0 tok st msg b : frame (negb (is_dh tok)) (rstate (rd_token ck0 h0 tok st msg b)) st.
+Proof.
+  unfold rd_token, decrypt_and_hash, tok_dh.
+  destruct tok; cbn [is_dh negb];
+  repeat match goal with
+  | |- context[match adec ?a ?b ?c ?d with _ => _ end] => destruct (adec a b c d) eqn:?
+  | |- context[if ?c then _ else _] => destruct c eqn:?
+  | |- context[let (_, _) := ?t in _] => destruct t eqn:?
+  | |- context[match ?c with Some _ => _ | None => _ end] => destruct c eqn:?
+  end; cbn [rstate]; unfold frame; hs_cbn; repeat split; try congruence; try discriminate.
+Qed.
+
+Lemma rd_loop_frame ck0 h0 toks : forall st msg b,
+  frame (negb (existsb is_dh toks)) (rstate (rd_loop ck0 h0 toks st msg b)) st.
+Proof.
+  induction toks as [|t r IH]; intros st msg b; cbn [rd_loop existsb].
+  - apply frame_refl.
+  - pose proof (rd_token_frame ck0 h0 t st msg b) as F.
+    destruct (rd_token ck0 h0 t st msg b) as [s|s m b']; cbn [rstate] in *.
+    + eapply frame_weaken; [|exact F]. destruct (is_dh t); [discriminate | reflexivity].
+    + apply (frame_trans _ _ s).
+      * eapply frame_weaken; [|apply IH]. destruct (is_dh t); [discriminate | auto].
+      * eapply frame_weaken; [|exact F]. destruct (is_dh t); [discriminate | reflexivity].
+Qed.
+
+Lemma read_message_wf st msg : ix_wf st -> ix_wf (fst (read_message st msg)).
+Proof.
+  intros [Hp Hk]. unfold read_message.
+  destruct (hs_shouldWrite st); [split; assumption|].
+  rewrite Hp, ix_nth.
+  destruct (idx_cases (hs_msgIdx st)) as [Hi | [Hi | [E0 E1]]].
+  - rewrite Hi. cbn [N.eqb].
+    pose proof (rd_loop_frame (hs_ck st) (hs_h st) [TE; TS] st msg false) as F. cbn [existsb is_dh orb negb] in F.
+    destruct (rd_loop _ _ _ _ _ _) as [s|s rest b]; cbn [rstate fst] in *; destruct F as (A & B & C & D).
+    + split; [congruence|]. intros _. rewrite D by reflexivity. auto.
+    + unfold decrypt_and_hash. rewrite (D eq_refl), (Hk Hi). cbn [fst]. split; hs_cbn; [congruence|]. intros Hc. lia.
+  - rewrite Hi. cbn [N.eqb Pos.eqb].
+    pose proof (rd_loop_frame (hs_ck st) (hs_h st) [TE; TEE; TSE; TS; TES] st msg false) as F.
+    destruct (rd_loop _ _ _ _ _ _) as [s|s rest b]; cbn [rstate fst] in *; destruct F as (A & B & C & D).
+    + split; [congruence|]. intros Hc. congruence.
+    + destruct (decrypt_and_hash s rest) as [[s' p]|] eqn:Hd.
+      * cbn [fst]. unfold decrypt_and_hash in Hd. 
+        assert (hs_pat s' = hs_pat s) by (destruct (hs_hasK s); [destruct (adec _ _ _ _)|]; inversion Hd; reflexivity).
+        split; hs_cbn; [congruence|]. intros Hc. lia.
+      * cbn [fst]. split; [destruct b; hs_cbn; congruence|]. intros Hc. destruct b; hs_cbn; congruence.
+  - rewrite E0, E1. split; assumption.
+Qed.
+
+Lemma wr_token_frame eph tok st out : frame (negb (is_dh tok)) (wstate (wr_token eph tok st out)) st.
+Proof.
+  unfold wr_token, encrypt_and_hash, tok_dh.
+  destruct tok; cbn [is_dh negb];
+  repeat match goal with
+  | |- context[if ?c then _ else _] => destruct c eqn:?
+  | |- context[match ?c with Some _ => _ | None => _ end] => destruct c eqn:?
+  end; cbn [wstate]; unfold frame; hs_cbn; repeat split; try congruence; try discriminate.
+Qed.
+
+Lemma wr_loop_frame eph toks : forall st out,
+  frame (negb (existsb is_dh toks)) (wstate (wr_loop eph toks st out)) st.
+Proof.
+  induction toks as [|t r IH]; intros st out; cbn [wr_loop existsb].
+  - apply frame_refl.
+  - pose proof (wr_token_frame eph t st out) as F.
+    destruct (wr_token eph t st out) as [s|s o]; cbn [wstate] in *.
+    + eapply frame_weaken; [|exact F]. destruct (is_dh t); [discriminate | reflexivity].
+    + apply (frame_trans _ _ s).
+      * eapply frame_weaken; [|apply IH]. destruct (is_dh t); [discriminate | auto].
+      * eapply frame_weaken; [|exact F]. destruct (is_dh t); [discriminate | reflexivity].
+Qed.
+
+Lemma write_message_wf st eph pl : ix_wf st -> ix_wf (fst (write_message st eph pl)).
+Proof.
+  intros [Hp Hk]. unfold write_message.
+  destruct (negb (hs_shouldWrite st)); [split; assumption|].
+  rewrite Hp, ix_nth.
+  destruct (idx_cases (hs_msgIdx st)) as [Hi | [Hi | [E0 E1]]].
+  - rewrite Hi. cbn [N.eqb]. destruct (max_msg_len <? _); [split; assumption|].
+    pose proof (wr_loop_frame eph [TE; TS] st Empty) as F. cbn [existsb is_dh orb negb] in F.
+    destruct (wr_loop _ _ _ _) as [s|s o]; cbn [wstate fst] in *; destruct F as (A & B & C & D).
+    + split; [congruence|]. intros _. rewrite D by reflexivity. auto.
+    + unfold encrypt_and_hash. hs_cbn. rewrite (D eq_refl), (Hk Hi). cbn [fst]. split; hs_cbn; [congruence|]. intros Hc. lia.
+  - rewrite Hi. cbn [N.eqb Pos.eqb]. destruct (max_msg_len <? _); [split; assumption|].
+    pose proof (wr_loop_frame eph [TE; TEE; TSE; TS; TES] st Empty) as F.
+    destruct (wr_loop _ _ _ _) as [s|s o]; cbn [wstate fst] in *; destruct F as (A & B & C & D).
+    + split; [congruence|]. intros Hc. congruence.
+    + unfold encrypt_and_hash. hs_cbn. destruct (hs_hasK s); cbn [fst]; split; hs_cbn; try congruence; intros Hc; lia.
+  - rewrite E0, E1. split; assumption.
+Qed.
+
+(* the parts of ProcessPacket / Initiate that do not touch the noise state *)
+Lemma validate_cert_hs m p : m_hs (fst (validate_cert m p)) = m_hs m.
+Proof.
+  unfold validate_cert.
+  repeat match goal with
+  | |- context[match ?c with _ => _ end] => destruct c eqn:?
+  end; reflexivity.
+Qed.
+
+Lemma process_payload_hs m msg a b : m_hs (fst (process_payload m msg a b)) = m_hs m.
+Proof.
+  unfold process_payload.
+  repeat match goal with
+  | |- context[if ?c then _ else _] => destruct c eqn:?
+  | |- context[match parse_payload ?c with _ => _ end] => destruct (parse_payload c) eqn:?
+  end; try reflexivity; cbn [fst]; rewrite validate_cert_hs; reflexivity.
+Qed.
+
+Lemma marshal_outgoing_hs m a b m' t : marshal_outgoing m a b = Some (m', t) -> m_hs m' = m_hs m.
+Proof.
+  unfold marshal_outgoing.
+  repeat match goal with
+  | |- context[match c_alloc ?x with _ => _ end] => destruct (c_alloc x) eqn:?
+  | |- context[match get_cred ?x ?y with _ => _ end] => destruct (get_cred x y) eqn:?
+  | |- context[if ?c then _ else _] => destruct c eqn:?
+  end; try discriminate; intros [= <- _]; reflexivity.
+Qed.
+
+Lemma require_complete_hs m : m_hs (fst (require_complete m)) = m_hs m.
+Proof. unfold require_complete. destruct (_ || _); reflexivity. Qed.
+
+Lemma build_response_wf m m' pkt keys :
+  ix_wf (m_hs m) -> build_response m = Some (m', pkt, keys) -> ix_wf (m_hs m').
+Proof.
+  intros W. unfold build_response. destruct (my_flags m) as [a b].
+  destruct (marshal_outgoing m a b) as [[m1 bytes]|] eqn:Hm; [|discriminate].
+  apply marshal_outgoing_hs in Hm.
+  pose proof (write_message_wf (m_hs m1) (c_eph (m_cfg m1)) bytes) as Ww. rewrite Hm in Ww. specialize (Ww W).
+  rewrite Hm. destruct (write_message (m_hs m) _ _) as [hs' [|out k]]; [discriminate|].
+  intros [= <- _ _]. exact Ww.
+Qed.
+
+Theorem initiate_wf m : ix_wf (m_hs m) -> ix_wf (m_hs (fst (initiate m))).
+Proof.
+  intros W. unfold initiate.
+  destruct (m_failed m); [exact W|]. destruct (negb (m_initiator m)); [exact W|]. destruct (negb _); [exact W|].
+  destruct (build_response m) as [[[m1 pkt] k]|] eqn:Hb; [|exact W].
+  eapply build_response_wf; eassumption.
+Qed.
+
+Theorem process_wf m p : ix_wf (m_hs m) -> ix_wf (m_hs (fst (process m p))).
+Proof.
+  intros W. unfold process.
+  destruct (m_failed m); [exact W|]. destruct (pk_short p); [exact W|]. destruct (negb _); [exact W|].
+  destruct (m_initiator m && _); [exact W|].
+  pose proof (read_message_wf (m_hs m) (pk_body p) W) as Wr.
+  destruct (read_message (m_hs m) (pk_body p)) as [hs' [|msg keys]]; cbn [fst] in Wr.
+  - destruct (term_eqb _ _); exact Wr.
+  - destruct (peer_flags _) as [a b].
+    pose proof (process_payload_hs (set_hs m hs') msg a b) as Hpp.
+    destruct (process_payload _ _ _ _) as [m2 [|]]; cbn [fst] in Hpp; [|cbn [fst]; rewrite Hpp; exact Wr].
+    assert (W2 : ix_wf (m_hs m2)) by (rewrite Hpp; exact Wr).
+    destruct keys as [[cs1 cs2]|].
+    + pose proof (require_complete_hs m2) as Hrc. destruct (require_complete m2) as [m3 [|]]; cbn [fst] in *; [|congruence].
+      unfold completed; cbn [fst set_res m_hs]. rewrite Hrc. exact W2.
+    + destruct (build_response m2) as [[[m3 pkt] k]|] eqn:Hb; [|exact W2].
+      pose proof (build_response_wf _ _ _ _ W2 Hb) as W3.
+      destruct k as [[cs1 cs2]|]; [|exact W3].
+      pose proof (require_complete_hs m3) as Hrc. destruct (require_complete m3) as [m4 [|]]; cbn [fst] in *; [|congruence].
+      unfold completed; cbn [fst set_res m_hs]. rewrite Hrc. exact W3.
+Qed.
+
+Theorem new_machine_wf c v i m : new_machine c v i = Some m -> ix_wf (m_hs m).
+Proof.
+  unfold new_machine. destruct (get_cred c v); [|discriminate]. intros [= <-]. split; reflexivity.
+Qed.
+
+(* every machine reachable from NewMachine by Initiate / ProcessPacket calls with arbitrary packets *)
+Inductive reach : machine -> Prop :=
+| reach_new c v i m : new_machine c v i = Some m -> reach m
+| reach_initiate m : reach m -> reach (fst (initiate m))
+| reach_process m p : reach m -> reach (fst (process m p)).
+
+Theorem reach_wf m : reach m -> ix_wf (m_hs m).
+Proof.
+  induction 1; [eapply new_machine_wf; eassumption | now apply initiate_wf | now apply process_wf].
+Qed.
+
+(* ---- failed is final ----------------------------------------------------------------------------------- *)
+
+Theorem failed_refuses m : m_failed m = true -> (forall g, process m g = (m, Reject)) /\ initiate m = (m, Reject).
+Proof. intros F. split; [intros g; unfold process | unfold initiate]; now rewrite F. Qed.
+
+(* ---- any number of rejected messages ------------------------------------------------------------------- *)
+
+(* m' is what m becomes after the packets ps, each of which was rejected with Failed() staying false *)
+Inductive rejected_run : machine -> list packet -> machine -> Prop :=
+| rr_nil m : rejected_run m [] m
+| rr_cons m p m1 ps m' :
+    process m p = (m1, Reject) -> m_failed m1 = false -> rejected_run m1 ps m' -> rejected_run m (p :: ps) m'.
+
+Theorem rejected_run_equiv m ps m' : ix_wf (m_hs m) -> rejected_run m ps m' -> mach_equiv m' m.
+Proof.
+  intros W R. induction R as [m | m p m1 ps m' Hp Hf R IH].
+  - apply mach_equiv_refl.
+  - pose proof (process_wf m p W) as W1. rewrite Hp in W1. cbn [fst] in W1.
+    eapply mach_equiv_trans; [apply IH; exact W1 | eapply reject_unchanged; eassumption].
+Qed.
+
+Theorem as_if_never_arrived m ps m' g :
+  ix_wf (m_hs m) -> rejected_run m ps m' -> outcome_rel (process m' g) (process m g).
+Proof.
+  intros W R. pose proof (rejected_run_equiv _ _ _ W R) as E.
+  apply process_congr; [|exact E].
+  destruct E as [E _]. eapply ix_wf_equiv; [exact W | apply noise_equiv_sym; exact E].
+Qed.
+
+(* ---- concrete witnesses (non-vacuity, and the two reproduced F5 inputs) ------------------------------- *)
+
+Module C07Ex.
+  Definition cfgI := mkCfg 0 0 None (Some (mkCred 101 2 0 (Pub 1))) 1 [(102, Pub 2)] (Some 1000) 5 11 300.
+  Definition cfgR := mkCfg 0 0 None (Some (mkCred 102 2 0 (Pub 2))) 2 [(101, Pub 1)] (Some 2000) 6 12 310.
+  Definition dead := mkM cfgI (init_hs 0 0 0 Empty true []) (mkRes None None None None 0 0 0 0 true) 0 false false false true.
+  Definition nopkt := mkPkt true 0 0 0 Empty.
+  Definition mI0 := match new_machine cfgI 2 true with Some m => m | None => dead end.
+  Definition mR0 := match new_machine cfgR 2 false with Some m => m | None => dead end.
+  Definition mI1 := fst (initiate mI0).                                   (* initiator after sending message 1 *)
+  Definition msg1 := match snd (initiate mI0) with Done (Some p) _ => p | _ => nopkt end.
+  Definition msg2 := match snd (process mR0 msg1) with Done (Some p) _ => p | _ => nopkt end.
+  Definition with_body (p : packet) (b : term) := mkPkt false (pk_subtype p) (pk_ri p) (pk_ctr p) b.
+  Definition trunc (p : packet) (k : N) := with_body p (fst (take 32 k (pk_body p))).
+  (* message 2 with the ephemeral replaced by a small-order point *)
+  Definition zero_e (p : packet) := with_body p (cat (Low 0) (snd (take 32 32 (pk_body p)))).
+  Definition completes (o : outcome) : bool := match o with Done _ (Some _) => true | _ => false end.
+  Definition rejects (o : outcome) : bool := match o with Reject => true | _ => false end.
+
+  (* a truncation inside the payload ciphertext is rejected by AEAD (rollback): usable, and the genuine message 2
+     then completes; so do: a header-only packet, a cut inside the ephemeral, a corrupted tag *)
+  Definition usable_after (bad : packet) : bool :=
+    let r := process mI1 bad in
+    rejects (snd r) && negb (m_failed (fst r)) && completes (snd (process (fst r) msg2)).
+  (* the F5 inputs: message 2 cut to 40 bytes (whole ephemeral + 8), and an all-zero ephemeral: rejected and
+     the machine is failed, every later packet refused *)
+  Definition failed_after (bad : packet) : bool :=
+    let r := process mI1 bad in
+    rejects (snd r) && m_failed (fst r) && rejects (snd (process (fst r) msg2)).
+
+  (* why the repair is needed: after the 40-byte prefix the noise state has lost the transcript, the genuine
+     message 2 can no longer be read (flynn returns without Rollback) *)
+  Definition wedged_noise_state : bool :=
+    let st := fst (read_message (m_hs mI1) (pk_body (trunc msg2 40))) in
+    negb (term_eqb (hs_h st) (hs_h (m_hs mI1))) &&
+    match snd (read_message st (pk_body msg2)) with RErr => true | _ => false end &&
+    match snd (read_message (m_hs mI1) (pk_body msg2)) with ROk _ _ => true | _ => false end.
+End C07Ex.
